@@ -350,7 +350,28 @@ impl<'a> Rw<'a> {
                 self.fire("R-FMT.log");
                 Some(parse_quote!(()))
             }
-            "vec" => None,
+            "vec" => {
+                // vec![e; n] / vec![a, b, ..]: rewrite the element expressions
+                if let Ok(rep) = mac.parse_body::<syn::ExprRepeat>().or_else(|_| {
+                    let ts = mac.tokens.clone();
+                    syn::parse2::<syn::ExprRepeat>(quote!([#ts]))
+                }) {
+                    let mut el = (*rep.expr).clone();
+                    let mut n = (*rep.len).clone();
+                    self.visit_expr_mut(&mut el);
+                    self.visit_expr_mut(&mut n);
+                    self.fire("R-VEC.repeat");
+                    Some(parse_quote!(vec_repeat(#el, #n)))
+                } else if let Ok(list) = mac.parse_body_with(Punctuated::<Expr, Token![,]>::parse_terminated) {
+                    let mut els: Vec<Expr> = list.into_iter().collect();
+                    for e in els.iter_mut() {
+                        self.visit_expr_mut(e);
+                    }
+                    Some(parse_quote!(vec![#(#els),*]))
+                } else {
+                    None
+                }
+            }
             "matches" => None,
             _ => {
                 self.err(format!("unsupported macro `{}`", name));
